@@ -20,6 +20,19 @@ def valid_cell(rng, oblique=True):
             return [a, b, c, al, be, ga]
 
 
+def special_cell(rng):
+    """cells with some angles exactly 90 / 60 / 120 and some equal lengths (monoclinic in every setting, hexagonal, ...)"""
+    while True:
+        a, b, c = (round(rng.uniform(1, 20), 3) for _ in range(3))
+        if rng.random() < 0.3:
+            b = a
+        if rng.random() < 0.2:
+            c = a
+        ang = [rng.choice([90.0, 90.0, 60.0, 120.0, round(rng.uniform(35, 145), 2)]) for _ in range(3)]
+        if gram(*ang) >= 0.02:
+            return [a, b, c] + ang
+
+
 def metric(cell):
     a, b, c, al, be, ga = cell
     ca, cb, cg = (math.cos(math.radians(x)) for x in (al, be, ga))
